@@ -481,6 +481,75 @@ def check_pixels(case):
     return [*labs, "pix_layout:" + layout, "fn:" + case["fn"], f"npix:{npix}"], vis
 
 
+@st.composite
+def bank_cases(draw):
+    """One incident beam per bank (array of vectors), mixing exactly horizontal and tilted beams."""
+    nb = draw(st.integers(2, 3))
+    banks = []
+    g_axis = draw(st.integers(0, 5))
+    g_abs_ = draw(g_abs)
+    for k in range(nb):
+        t = 0.0 if (k == 0 or draw(st.booleans())) else draw(st.floats(-4, 0).map(lambda e: 10.0**e))
+        if k == 1:
+            t = draw(st.floats(-4, 0).map(lambda e: 10.0**e))  # at least one tilted, at least one horizontal
+        c = draw(geometry(tilt=t, axis_g=True))
+        c["g_axis"], c["g_dir"], c["g_abs"] = g_axis, None, g_abs_
+        banks.append(c)
+    for c in banks[1:]:
+        c["b1_unit"], c["b2_unit"] = banks[0]["b1_unit"], banks[0]["b2_unit"]
+    n = draw(st.integers(1, 3))
+    return {"banks": banks, "lam": draw(st.lists(lam_value, min_size=n, max_size=n)),
+            "lam_unit": draw(st.sampled_from(["angstrom", "nm"])), "lam_dtype": "float64",
+            "fn": draw(st.sampled_from(["scattering_angles_with_gravity", "scattering_angles_with_gravity",
+                                        "scattering_angle_in_yz_plane"]))}
+
+
+def check_banks(case):
+    import scipp as sc
+    from scippneutron.conversion import beamline as bl
+
+    banks = [dict(c, lam=case["lam"], lam_unit=case["lam_unit"], lam_dtype="float64", layout="dense") for c in case["banks"]]
+    vs = [vectors(c) for c in banks]
+    lam = stored_lambda(banks[0])
+    args = {
+        "incident_beam": sc.vectors(dims=["bank"], values=np.array([v[1] for v in vs]), unit=banks[0]["b1_unit"]),
+        "scattered_beam": sc.vectors(dims=["bank"], values=np.array([v[2] for v in vs]), unit=banks[0]["b2_unit"]),
+        "wavelength": sc.array(dims=["wavelength"], values=lam, unit=case["lam_unit"]),
+        "gravity": sc.vector(vs[0][0], unit="m/s^2"),
+    }
+    tilted = [c["tilt"] for c in banks if c["tilt"] != 0.0]
+    labs = [f"nbanks:{len(banks)}", "fn:" + case["fn"], "mixed-horizontal-and-tilted"]
+    if case["fn"] == "scattering_angle_in_yz_plane":
+        # any tilted bank (tilt >= 1e-4 here, |b1| >= 1) must make the call refuse
+        try:
+            bl.scattering_angle_in_yz_plane(**args)
+        except ValueError:
+            return [*labs, "yz:refused"], True
+        raise Violation("accepted-tilted", f"scattering_angle_in_yz_plane accepted an array of incident beams of which "
+                                           f"some are tilted by {tilted} rad out of the plane perpendicular to gravity")
+    out = bl.scattering_angles_with_gravity(**args)
+    refs_all = []
+    for name in ("two_theta", "phi"):
+        arr = out[name].transpose(["bank", "wavelength"]).values
+        for i, c in enumerate(banks):
+            refs = reference(c, lam)
+            refs_all += refs
+            for j, r in enumerate(refs):
+                tol = tol_for(c, r)
+                if name == "phi":
+                    if r["rho_rel"] <= mp.mpf("1e-6"):
+                        continue
+                    tol = tol / min(r["rho_rel"], 1)
+                e = angle_err(float(arr[i, j]), r[name])
+                if name == "phi":
+                    e = min(e, abs(e - 2 * mp.pi))
+                if not math.isfinite(arr[i, j]) or e > tol:
+                    raise Violation(name, f"bank {i} (tilt {c['tilt']!r}), wavelength {j}: {name} = {float(arr[i, j])!r}, "
+                                          f"documented construction gives {mp.nstr(r[name], 17)}; error {mp.nstr(e, 3)}")
+    vis = any(r["delta_rel"] >= mp.mpf("1e-8") for r in refs_all)
+    return labs, vis
+
+
 def m_general_path_sign(case, v):
     return v.kind in ("two_theta", "discontinuous", "not-larger") and (case.get("tilt", 0.0) != 0.0 or "eps" in case)
 
@@ -503,6 +572,9 @@ FACETS = [
     Facet("pixel_arrays", check_pixels, strategy=lambda tier: pixel_cases(),
           quick=(2, 250), thorough=(16, 2500), min_nontrivial=0.3,
           doc="per-pixel scattered beams with wavelength on its own dim (outer product), on the pixel dim, or 0-d"),
+    Facet("incident_arrays", check_banks, strategy=lambda tier: bank_cases(),
+          quick=(2, 200), thorough=(16, 2000), min_nontrivial=0.3,
+          doc="one incident beam per bank, some exactly horizontal and some tilted (dispatch over an array)"),
     Facet("binned", check_binned, strategy=lambda tier: binned_cases(),
           quick=(2, 200), thorough=(16, 2000), min_nontrivial=0.3,
           doc="binned wavelengths give per-event values identical to dense ones"),
